@@ -1390,7 +1390,10 @@ def selftest(ctx):
     # the guard of facet_normal, on the mesh kinds where the two normals are independent
     kinds = ["manifold", "dgmesh", "p2mesh", "p2manifold"]
     mruns = [Run("selftest-" + k, [Slice("selftest-" + k, ["n", "g"], [{"R", "dot", "mul", "idx", "jumpn"}, {"R", "neg"}], mesh=k, atoms=["n", "g", *pm("n", "g")])], k) for k in kinds]
-    menvs, mres = run_tlc(Batch("selftest-meshes", mruns), ctx.seed, 2, 300)
+    # a measure whose primary integral type is not interior_facet (exterior facets of A = interior facets of B)
+    fdoms, fterms, _ = MEASURES["ds-dS"]
+    frun = Run("selftest-ds-dS", [Slice("selftest-ds-dS", fterms, [{"use", "R", "mul"}, {"R"}], doms=fdoms)], doms=fdoms)
+    menvs, mres = run_tlc(Batch("selftest-meshes", [*mruns, frun]), ctx.seed, 2, 300)
     tlc.require_ok(mres, "Restrict[selftest-meshes]")
     mrecs = records_of(mres)
 
@@ -1429,6 +1432,46 @@ def selftest(ctx):
         c = copy.deepcopy(next(x for x in rs if x["valid"] and x["d"] == "default" and x["term"] == ["R", ["T", 1], "-"]))
         c["leaves"] = [{"nm": "n", "ch": "", "s": "+"}]
         rejected[f"corrupt: predicted n('-') -> n('+') ({r.mesh})"] = sorted(f for f in fps([c], w=mw, tenvs=mt) if f == "C17:structure:leaves-differ")
+    # FormData's guard and map of default restrictions, on the multi-domain measure
+    import ufl.algorithms.formdata as FD
+
+    fw = World(frun)
+    ft = [TwoSidedEnv(fw, x) for x in menvs[-1]]
+    frs = [x for x in mrecs if x["cfg"] == "selftest-ds-dS"]
+    if not frs or not all(x["os"] and x["prop"] for x in frs):
+        raise MachineryError("selftest: no records / no one-sided terminals under the measure ds /\\ dS")
+    base = fps(frs, w=fw, tenvs=ft, form_every=1)
+    if base:
+        raise MachineryError(f"selftest: the unmodified code does not conform under the measure ds /\\ dS: {sorted(base)}")
+    real_apply = FD.apply_restrictions
+
+    def primary_only(integral, **kw):
+        # the guard looks at the primary integral type only
+        return real_apply(integral, **kw) if integral.integral_type().startswith("interior_facet") else integral
+
+    def one_map(integral, default_restrictions=None, **kw):
+        # every domain gets the default restriction of the interior-facet domain
+        return real_apply(integral, default_restrictions={m: "+" for m in default_restrictions}, **kw)
+
+    for name, mutant, want in (
+        ("mutant: FormData propagates only when the primary integral type is interior_facet (ds /\\ dS)", primary_only, ("C17:accepted-missing-restriction", "C17:structure:")),
+        ("mutant: FormData gives every domain of the measure the default '+' (ds /\\ dS)", one_map, ("C17:rejects-valid", "C17:structure:restricted-one-sided")),
+    ):
+        FD.apply_restrictions = mutant
+        try:
+            got = fps(frs, w=fw, tenvs=ft, form_every=1)
+        finally:
+            FD.apply_restrictions = real_apply
+        rejected[name] = sorted(f for f in got if f.startswith(want))
+    # the model's notion of a one-sided domain must matter: a prediction that calls A two-sided is rejected
+    c = copy.deepcopy(next(x for x in frs if x["valid"] and x["d"] == "default" and x["term"][0] == "mul" and {l["nm"] for l in x["inleaves"]} == {"f1", "f1_b"}))
+    c["os"] = []
+    fw2 = World(frun)
+    try:
+        judge(fw2, [TwoSidedEnv(fw2, x) for x in menvs[-1]], c, {})
+        rejected["corrupt: predicted one-sided terminals dropped"] = []
+    except MachineryError as exc:
+        rejected["corrupt: predicted one-sided terminals dropped"] = [str(exc)[:60]]
     ctx.add_tlc(mres)
     ctx.traces(len(mrecs))
     # corrupted predictions
